@@ -101,9 +101,9 @@ class PendingModule(PendingNode[Module]):
 
     def get_result(self) -> list[expr]:
         if self.nsp_global.use_itertools:
-            self._insert_import_lib("itertools", "itertools")
+            self._insert_import_lib("itertools", OL_ITERTOOLS)
         if self.nsp_global.use_importlib:
-            self._insert_import_lib("importlib", "importlib")
+            self._insert_import_lib("importlib", OL_IMPORTLIB)
 
         if self.nsp_global.use_preset_iter_wrapper:
             from .presets import iter_wrapper_body
@@ -370,7 +370,7 @@ class PendingWhile(_PendingLoop[While]):
                     target=Name(id=while_item_name, ctx=Store()),
                     iter=Call(
                         func=Attribute(
-                            value=Name(id="itertools", ctx=Load()),
+                            value=Name(id=OL_ITERTOOLS, ctx=Load()),
                             attr="takewhile",
                             ctx=Load(),
                         ),
@@ -387,7 +387,7 @@ class PendingWhile(_PendingLoop[While]):
                             ),
                             Call(
                                 func=Attribute(
-                                    value=Name(id="itertools", ctx=Load()),
+                                    value=Name(id=OL_ITERTOOLS, ctx=Load()),
                                     attr="count",
                                     ctx=Load(),
                                 ),
@@ -1341,7 +1341,7 @@ class PendingImport(PendingNode[Import]):
                     asname,
                     Call(
                         func=Attribute(
-                            value=Name(id="importlib", ctx=Load()),
+                            value=Name(id=OL_IMPORTLIB, ctx=Load()),
                             attr="import_module",
                         ),
                         args=[Constant(value=_alias.name)],
